@@ -8,15 +8,15 @@ from symx.core import sym_int
 CM.int = sym_int
 
 
-def build(c, n, log, amp_mode):
+def build(c, n, log, amp_mode, lean=False):
     halt = c.choice("halt_on_failure", [True, False])
     maxamp = c.real("max_amp", 2, 1, 64) if amp_mode == "sym" else 100.0
     cas = Cascade("v", max_amplification=maxamp, halt_on_failure=halt, silent=True)
     stages = []
     for i in range(n):
         has_ck = c.choice(f"has_ck{i}", [True, False])
-        has_h = c.choice(f"has_handler{i}", [False, True])
-        required = c.choice(f"required{i}", [True, False])
+        has_h = c.choice(f"has_handler{i}", [False, True]) if not lean else False
+        required = c.choice(f"required{i}", [True, False]) if not lean else (i % 2 == 0)
         amp = c.real(f"amp{i}", 2, 0, 16) if amp_mode == "sym" else (c.choice(f"amp{i}", [1.0, 0.0, 2.5, 200.0]) if amp_mode == "grid" else [2.0, 0.5, 60.0][i % 3])
 
         def ck(sig, i=i):
@@ -125,10 +125,10 @@ def check_run(c, cas, stages, halt, maxamp, log, r, info):
     c.check("C19.d-product", b_or(over, eq(r.total_amplification, prod)), {"what": "amplification is not the product of completed stages' factors", **info})
 
 
-def run_harness(n, amp_mode):
+def run_harness(n, amp_mode, lean=False):
     def h(c):
         log = []
-        cas, stages, halt, maxamp = build(c, n, log, amp_mode)
+        cas, stages, halt, maxamp = build(c, n, log, amp_mode, lean)
         st, r = call_returns(c, "C19.total", "run", cas.run, "in")
         if st != "ok":
             if st == "raised":
@@ -190,7 +190,8 @@ def mapk():
 HARNESSES = {
     "run": {"make": run_harness, "witness_every": 13,
             "jobs": lambda tier: ([{"n": 1, "amp_mode": "sym"}, {"n": 2, "amp_mode": "sym"}, {"n": 3, "amp_mode": "one"}] if tier == "quick" else
-                                  [{"n": 1, "amp_mode": "sym"}, {"n": 2, "amp_mode": "sym"}, {"n": 3, "amp_mode": "sym"}, {"n": 4, "amp_mode": "grid"}]),
+                                  [{"n": 1, "amp_mode": "sym"}, {"n": 2, "amp_mode": "sym"}, {"n": 3, "amp_mode": "sym"}, {"n": 3, "amp_mode": "grid"},
+                                   {"n": 4, "amp_mode": "one", "lean": True}, {"n": 5, "amp_mode": "one", "lean": True}]),
             "clauses": ["C19.a", "C19.b", "C19.c", "C19.c-order", "C19.c-out", "C19.c-withheld", "C19.d", "C19.d-product"]},
     "mapk": {"make": mapk, "jobs": lambda tier: [{}], "witness_every": 1, "clauses": ["C19.a", "C19.d"]},
 }
@@ -203,8 +204,8 @@ META = {
     },
     "files": ["operon_ai/topology/cascade.py"],
     "bounds": {"quick": "1-2 stages with symbolic amplification (grid 1/2, 0..16) and symbolic max; 3 stages with fixed amplifications 2, 0.5, 60 (max 100); all checkpoint/processor/handler behaviours, required/optional, both halt settings; MAPK preset on 6 inputs",
-               "thorough": "1-3 stages symbolic amplification; 4 stages grid"},
-    "outside": ["max_amplification below 1 (the empty product 1.0 is then reported unclamped)", "run_parallel / conditional modes", "callbacks on_stage_complete/on_cascade_complete", "IEEE rounding of amplification products off the 1/2 grid", "5-stage pipelines"],
+               "thorough": "1-3 stages symbolic amplification; 3 stages with 4 grid amplifications; 4 and 5 stages in a lean configuration (no error handlers, alternating required/optional, fixed amplifications)"},
+    "outside": ["max_amplification below 1 (the empty product 1.0 is then reported unclamped)", "run_parallel / conditional modes", "callbacks on_stage_complete/on_cascade_complete", "IEEE rounding of amplification products off the 1/2 grid", "5-stage pipelines with error handlers"],
     "float_argument": "F-grid: amplification factors k/2 with k<=32 and up to 3 factors: products exact in binary64",
     "assumptions": ["stage callbacks are stubs choosing their behaviour per invocation", "cascade.int rebound (unused on the run path)"],
     "must_cover": [("operon_ai/topology/cascade.py", "recovery_signal = stage.on_error(e)"),
